@@ -1,0 +1,65 @@
+//go:build verif
+
+// Contracts for package blockchain, checked by /verif/govc (comment-only; see /verif/DESIGN.md).
+package blockchain
+
+// ---------------------------------------------------------------- C09: one state transition
+// Message getters are pure functions of the message.
+//@ spec func msgGas(m Message) int
+//@ spec func msgNonce(m Message) int
+//@ spec func msgFrom(m Message) common.Address
+//@ spec func msgCheckNonce(m Message) bool
+//@ trusted func (m Message) Gas() (r uint64)
+//@   ensures r == msgGas(m)
+//@ trusted func (m Message) Nonce() (r uint64)
+//@   ensures r == msgNonce(m)
+//@ trusted func (m Message) From() (r common.Address)
+//@   ensures r == msgFrom(m)
+//@ trusted func (m Message) CheckNonce() (r bool)
+//@   ensures r == msgCheckNonce(m)
+//@ trusted func (m Message) Value() (r *big.Int)
+//@   ensures r != nil && r.v >= 0
+//@ trusted func (m Message) To() (r *common.Address)
+//@ trusted func (m Message) GasPrice() (r *big.Int)
+//@   ensures r != nil && r.v >= 0
+
+//@ spec func wfST(st *StateTransition) bool = st != nil && st.gp != nil && st.msg != nil && st.state != nil && st.gasPrice != nil && st.gasPrice.v >= 0
+
+//@ func (st *StateTransition) gasUsed() (r uint64)
+//@   for C09
+//@   requires st != nil && st.gas <= st.initialGas
+//@   nooverflow
+//@   ensures r == st.initialGas - st.gas
+
+// buyGas: on success the sender paid gas*price, the pool lost exactly gas, the transition holds gas;
+// on failure nothing changed.
+//@ func (st *StateTransition) buyGas() (err error)
+//@   for C09
+//@   requires wfST(st) && st.gas == 0
+//@   nooverflow
+//@   modifies st.gas, st.initialGas, *st.gp, st.state.bal
+//@   ensures [paysGas] err == nil ==> st.state.bal == upd(old(st.state.bal), msgFrom(st.msg), old(st.state.bal)[msgFrom(st.msg)] - msgGas(st.msg) * st.gasPrice.v)
+//@   ensures [poolDebited] err == nil ==> *st.gp == old(*st.gp) - msgGas(st.msg) && st.gas == msgGas(st.msg) && st.initialGas == msgGas(st.msg)
+//@   ensures [affordable] err == nil ==> old(st.state.bal)[msgFrom(st.msg)] >= msgGas(st.msg) * st.gasPrice.v
+//@   ensures [rejectedUntouched] err != nil ==> st.state.bal == old(st.state.bal) && *st.gp == old(*st.gp) && st.gas == old(st.gas)
+
+//@ func (st *StateTransition) preCheck() (err error)
+//@   for C09
+//@   requires wfST(st) && st.gas == 0
+//@   nooverflow
+//@   modifies st.gas, st.initialGas, *st.gp, st.state.bal
+//@   ensures [nonceChecked] err == nil && msgCheckNonce(st.msg) ==> st.state.nonce[msgFrom(st.msg)] == msgNonce(st.msg)
+//@   ensures [poolDebited] err == nil ==> *st.gp == old(*st.gp) - msgGas(st.msg) && st.gas == msgGas(st.msg) && st.initialGas == msgGas(st.msg)
+//@   ensures [rejectedUntouched] err != nil ==> st.state.bal == old(st.state.bal) && *st.gp == old(*st.gp) && st.gas == old(st.gas)
+
+// refundGas: the refund is at most half of the gas used; unused gas goes back to sender and pool.
+//@ func (st *StateTransition) refundGas()
+//@   for C09
+//@   requires wfST(st) && st.gas <= st.initialGas && *st.gp + st.initialGas <= 18446744073709551615
+//@   nooverflow
+//@   modifies st.gas, *st.gp, st.state.bal
+//@   ensures [refundAtMostHalf] st.gas - old(st.gas) <= (st.initialGas - old(st.gas)) / 2 && st.gas >= old(st.gas)
+//@   ensures [refundAtMostCounter] st.gas - old(st.gas) <= st.state.refund
+//@   ensures [gasBounded] st.gas <= st.initialGas
+//@   ensures [poolCredited] *st.gp == old(*st.gp) + st.gas
+//@   ensures [senderCredited] st.state.bal == upd(old(st.state.bal), msgFrom(st.msg), old(st.state.bal)[msgFrom(st.msg)] + st.gas * st.gasPrice.v)
